@@ -35,6 +35,8 @@ def gen_cases(tier, seed):
                           "storage": STORAGE[n % len(STORAGE)], "dtype": ["float64", "float32"][n % 2], "seed": int(rng.integers(2 ** 31))})
     for c in nncommon.build_cases(tier, seed, "c11", budget={"quick": 40, "thorough": 700}[tier]):
         c["kind"] = "nn"
+        if c["n"] % 3 == 0 and c["op"] in ("relu", "leaky_relu", "selu", "tanh", "sigmoid", "softmax", "log_softmax", "bce_with_logits", "cross_entropy"):
+            c["a"] = dict(c["a"], vclass="large")            # saturating magnitudes: clamps / overflow guards must not be written into the operand
         c["storage"] = STORAGE[c["n"] % 4]
         c["dtype"] = ["float64", "float32"][c["n"] % 2]
         cases.append(c)
@@ -49,32 +51,7 @@ def V(sig, what, **detail):
     return {"sig": sig, "what": what, "detail": detail}
 
 
-def as_storage(x, storage, rng, base_pool):
-    """returns an array equal to x but stored as the requested kind of view"""
-    x = np.asarray(x)
-    if storage == "plain" or x.ndim == 0:
-        return x.copy()
-    if storage == "transposed":
-        return np.ascontiguousarray(x.T).T
-    if storage == "strided":
-        big = np.empty((x.shape[0] * 2,) + x.shape[1:], dtype=x.dtype)
-        big[...] = 7.25
-        big[::2] = x
-        return big[::2]
-    if storage == "reshaped":
-        flat = x.reshape(-1).copy()
-        return flat.reshape(x.shape)
-    if storage == "shared-base":
-        # all operands of the case live in one base buffer, side by side
-        buf = base_pool.setdefault(x.dtype.str, np.full(4096, 3.5, dtype=x.dtype))
-        off = base_pool.get("off", 0)
-        if off + x.size > buf.size:
-            return x.copy()
-        v = buf[off:off + x.size].reshape(x.shape)
-        v[...] = x
-        base_pool["off"] = off + x.size
-        return v
-    return x.copy()
+as_storage = gen.as_storage
 
 
 def snap(arrs):
